@@ -42,7 +42,7 @@ def gen_history(rng, run, mode="kvs", nops=60, focus="C01"):
         opts["sst-target-block-size"] = 4096
     ops = []
     vid = 0
-    style = rng.choice(["mixed", "hot", "churn"])
+    style = rng.choice(["mixed", "hot", "churn", "deep", "deep"])
     ts = 10
     pending = 0
     for _ in range(nops):
@@ -68,6 +68,8 @@ def gen_history(rng, run, mode="kvs", nops=60, focus="C01"):
                         vs.append([k, ts, 0 if rng.random() < 0.25 else vid])
                     ents.extend(sorted(vs, key=lambda e: -e[1]))
                 ops.append(["ingest", ents])
+                if style == "deep":
+                    ops += [["compact"]] * 17
             elif r < 0.85:
                 ops.append(["compact"])
             elif r < 0.93:
@@ -94,6 +96,9 @@ def gen_history(rng, run, mode="kvs", nops=60, focus="C01"):
             if pending:
                 ops.append(["flush"])
                 pending = 0
+                if style == "deep":
+                    # let the tree settle: files travel to the bottom, top-level GCs happen
+                    ops += [["compact"]] * 17
         elif r < 0.88:
             ops.append(["compact"])
         elif r < 0.92:
@@ -153,9 +158,10 @@ def validate(wd, name, trace, devs, timeout=1200):
     return info, r
 
 
-def run_and_validate(out, wd, docs, label, devs, props):
-    """Execute histories on the real store (parallel chunks), validate each chunk's trace with TLC;
-    on a rejection, narrow down to single runs.  Returns list of (doc, reason) failures."""
+def run_and_validate(out, wd, docs, label, devs, props, max_fail_per_chunk=4):
+    """Execute histories on the real store (parallel chunks), validate each chunk's trace with TLC.
+    On a rejection the run that contains the rejected line is recorded and removed, and the rest of
+    the chunk is validated again (so one bad history does not leave the others unexamined)."""
     vlib.build_harness()
     nchunk = max(1, min(14, len(docs) // 4))
     chunks = [docs[i::nchunk] for i in range(nchunk)]
@@ -165,41 +171,67 @@ def run_and_validate(out, wd, docs, label, devs, props):
         with open(hp, "w") as f:
             json.dump(ch, f)
         jobs.append(["store-run", hp, os.path.join(wd, f"{label}.{i}.scr"), os.path.join(wd, f"{label}.{i}.ndjson")])
-    results = run_vh_parallel(jobs, timeout=600)
-    failures = []
-    procs = []
-    # validate chunks in parallel (each TLC is single-threaded)
+    run_vh_parallel(jobs, timeout=900)
     import concurrent.futures
-    def val(i):
-        return validate(wd, f"{label}.{i}", os.path.join(wd, f"{label}.{i}.ndjson"), devs)
+    import re
+
+    def work(i):
+        tp = os.path.join(wd, f"{label}.{i}.ndjson")
+        lines = open(tp).read().splitlines()
+        by_run = {d["run"]: d for d in chunks[i]}
+        fails = []
+        stats = {"states": 0, "generated": 0, "events": 0, "runs_ok": 0, "unexamined": 0}
+        rnd = 0
+        while True:
+            cur = os.path.join(wd, f"{label}.{i}.r{rnd}.ndjson")
+            with open(cur, "w") as f:
+                f.write("\n".join(lines) + ("\n" if lines else ""))
+            if not lines:
+                break
+            info, r = validate(wd, f"{label}.{i}.r{rnd}", cur, devs)
+            stats["states"] += info["states"]
+            stats["generated"] += info["generated"]
+            runs_here = [json.loads(l)["run"] for l in lines if '"ev":"open"' in l]
+            if info["accepted"]:
+                stats["events"] += len(lines)
+                stats["runs_ok"] += len(runs_here)
+                break
+            at = info["matched"]
+            # the run containing line `at` (0-based index of the first unmatched line)
+            start = at
+            while start > 0 and '"ev":"open"' not in lines[start]:
+                start -= 1
+            end = at + 1
+            while end < len(lines) and '"ev":"open"' not in lines[end]:
+                end += 1
+            run = json.loads(lines[start])["run"]
+            guard = None
+            txt = open(r.out, errors="replace").read()
+            m = re.findall(r'"GUARD-FAILED",\s*"([^"]+)"', txt)
+            if m:
+                guard = m[-1]
+            fails.append({"doc": by_run.get(run), "matched": at - start, "violated": info["violated"], "guard": guard,
+                          "event": json.loads(lines[at]) if at < len(lines) else None})
+            # everything before `start` was accepted
+            stats["events"] += start
+            stats["runs_ok"] += sum(1 for l in lines[:start] if '"ev":"open"' in l)
+            lines = lines[end:]
+            rnd += 1
+            if len(fails) >= max_fail_per_chunk:
+                stats["unexamined"] += sum(1 for l in lines if '"ev":"open"' in l)
+                break
+        return fails, stats
+
+    failures = []
     with concurrent.futures.ThreadPoolExecutor(max_workers=12) as ex:
-        infos = list(ex.map(val, range(len(chunks))))
-    for i, (info, r) in enumerate(infos):
-        out.states += info["states"]
-        out.transitions += info["generated"]
-        if info["accepted"]:
-            out.traces += len(chunks[i])
-            out.extra["events_validated"] = out.extra.get("events_validated", 0) + info["lines"]
-            continue
-        # narrow down: validate each run of this chunk on its own
-        for j, doc in enumerate(chunks[i]):
-            hp = os.path.join(wd, f"{label}.{i}.{j}.hist.json")
-            with open(hp, "w") as f:
-                json.dump([doc], f)
-            tp = os.path.join(wd, f"{label}.{i}.{j}.ndjson")
-            run_vh_parallel([["store-run", hp, os.path.join(wd, f"{label}.{i}.{j}.scr"), tp]])
-            inf, rr = validate(wd, f"{label}.{i}.{j}", tp, devs)
-            out.states += inf["states"]
-            out.transitions += inf["generated"]
-            if inf["accepted"]:
-                out.traces += 1
-                out.extra["events_validated"] = out.extra.get("events_validated", 0) + inf["lines"]
-            else:
-                lines = open(tp).read().splitlines()
-                at = inf["matched"]
-                bad = json.loads(lines[at]) if at is not None and at < len(lines) else None
-                failures.append({"doc": doc, "matched": at, "violated": inf["violated"],
-                                 "event": bad, "prev_event": json.loads(lines[at - 1]) if at else None})
+        for fails, st in ex.map(work, range(len(chunks))):
+            failures += fails
+            out.states += st["states"]
+            out.transitions += st["generated"]
+            out.traces += st["runs_ok"]
+            out.extra["events_validated"] = out.extra.get("events_validated", 0) + st["events"]
+            if st["unexamined"]:
+                out.extra["runs_unexamined_after_failures"] = out.extra.get("runs_unexamined_after_failures", 0) + st["unexamined"]
     return failures
 
 
@@ -232,9 +264,9 @@ def check_store(prop, replay=None):
         docs += regression_histories()
     failures = run_and_validate(out, wd, docs, "drv", devs, prop)
     for f in failures:
-        path = replay or vlib.save_replay(prop, "store-history", {"doc": f["doc"], "matched": f["matched"],
+        path = replay or vlib.save_replay(prop, "store-history", {"doc": f["doc"], "matched": f["matched"], "guard": f.get("guard"),
                                                                   "violated": f["violated"], "event": f["event"]})
-        out.violation(path, f"violated={f['violated']} at event {f['matched']}: {summarize_event(f['event'])}")
+        out.violation(path, f"violated={f['violated']} guard={f.get('guard')} at event {f['matched']}: {summarize_event(f['event'])}")
     out.samples = [json.dumps(d, separators=(",", ":"))[:600] for d in docs[:2]]
     out.extra["histories"] = len(docs)
     out.extra["rule"] = ("seeded random histories of put/del/batch/flush/compact-step/reopen/verify/scan on the real store "
